@@ -163,6 +163,11 @@ fn c05_fams(tier: Tier) -> Vec<Fam> {
         v.push(Fam::Sinc { l: 32, os: 32, interp: Interp::Cubic, ratio: 1.0 / 40.0 });
         v.push(Fam::Sinc { l: 64, os: 16, interp: Interp::Quadratic, ratio: 500.0 / 48000.0 });
     }
+    // custom interpolators of odd length: both variants have to agree on where "half a filter
+    // before the first frame" is
+    v.push(Fam::Sinc { l: 9, os: 2, interp: Interp::Linear, ratio: 1.0 });
+    v.push(Fam::Sinc { l: 9, os: 2, interp: Interp::Cubic, ratio: 0.9 });
+    v.push(Fam::Sinc { l: 15, os: 4, interp: Interp::Quadratic, ratio: 1.25 });
     v.push(Fam::Fast { degree: Degree::Cubic, ratio: 1.0 / 12.0 });
     v.push(Fam::Fast { degree: Degree::Septic, ratio: 1.0 / 40.0 });
     for &ratio in &ratios {
@@ -327,8 +332,11 @@ impl Check for C05 {
         match fam {
             Fam::Sinc { l, os, interp, ratio } => {
                 label = format!("sinc L{} os{} {} r={:?}", l, os, interp.name(), ratio);
+                // odd filter lengths exist only with custom interpolators (the index probe keeps the
+                // length it is given; its output is a fixed function of the read position)
+                let kernel = if l % 2 == 1 { Kernel::Probe } else { Kernel::Dispatch };
                 let mk = |kind: Kind, chunk: usize| {
-                    let mut c = Cfg::sinc(kind, ratio, 1.0, chunk, l, os, interp, Kernel::Dispatch);
+                    let mut c = Cfg::sinc(kind, ratio, 1.0, chunk, l, os, interp, kernel);
                     c.window = rubato::WindowFunction::BlackmanHarris2;
                     c
                 };
@@ -480,6 +488,9 @@ const MASKED: usize = usize::MAX;
 /// k/1000 is requested with a ramp and then again without (the second request replaces the
 /// pending ramp: a constant-ratio stream at ratio * k/1000 from the first frame on).
 const RAMP_THEN_STEP: usize = usize::MAX - 1;
+/// Schedule entry (STEP_PPB, k), first entry only: before the stream the relative ratio
+/// 1 + k * 1e-9 is requested (no ramp): a constant-ratio stream at that ratio.
+const STEP_PPB: usize = usize::MAX - 2;
 
 /// A ratio r (as an f64) whose reciprocal, as the resamplers compute it (1.0 / r), is exactly
 /// the dyadic step `t`.
@@ -570,6 +581,20 @@ fn c07_items(tier: Tier) -> Vec<C07Item> {
             }
         }
         items.push(C07Item { cfgs, horizon: Some(64) });
+    }
+    // a trim of 0.9 ppm / 8e-10 (clock-drift tracking) followed by tens of millions of frames:
+    // the totals follow the requested ratio, however small the change was
+    for k in [900usize, 1] {
+        let mut cfgs: Vec<(Cfg, Schedule)> = Vec::new();
+        for kind in [Kind::FI, Kind::FO] {
+            cfgs.push((Cfg::fast(kind, 1.0, 1.1, 4096, Degree::Nearest), vec![(STEP_PPB, k)]));
+        }
+        for kind in [Kind::SI, Kind::SO] {
+            cfgs.push((Cfg::sinc(kind, 1.0, 1.1, 4096, 8, 2, Interp::Nearest, Kernel::Scalar), vec![(STEP_PPB, k)]));
+        }
+        if k == 900 || !q {
+            items.push(C07Item { cfgs, horizon: Some(if k == 900 { 20_000 } else { 400_000 }) });
+        }
     }
     // FFT: every rate pair x chunk x sub
     let maxrate = if q { 8 } else { 12 };
@@ -662,6 +687,15 @@ fn c07_one(acc: &mut C07Acc, cfg: &Cfg, sched: &Schedule, horizon: usize, journa
             if !matches!(r.apply(op).res, Res::Unit) {
                 return Err(format!("{}: {} was rejected", cfg.short(), op.text()));
             }
+        }
+        ratio *= x;
+        sched_v.remove(0);
+    }
+    if let Some((STEP_PPB, k)) = sched_v.first().copied() {
+        let x = 1.0 + k as f64 * 1.0e-9;
+        let op = Op::R(x, false);
+        if !matches!(r.apply(op).res, Res::Unit) {
+            return Err(format!("{}: {} was rejected", cfg.short(), op.text()));
         }
         ratio *= x;
         sched_v.remove(0);
